@@ -67,6 +67,25 @@ pub fn check(q: &Query, text: &str, doc: &J, obs: &mut Obs) -> Res {
                 None => return Err(Failure::new(format!("{}: returned value is not a node of the document", what), case())),
             }
         }
+        // the third entry point lists paths only: they must spell the nodes just returned, in that order
+        // (only where every name selector is written the way a normalized path writes it: a path step
+        // made from a double-quoted selector is the open finding K2 of C03)
+        if what == "query_with_path" && !text.contains('"') && !text.contains('\\') {
+            obs.eval(1);
+            match libx::query_paths(&v, text) {
+                Ok(paths) => {
+                    let via_paths: Vec<Option<Loc>> = paths.iter().map(|p| crate::recog::path_to_loc(p)).collect();
+                    if via_paths.len() != got.len() || via_paths.iter().zip(&got).any(|(a, b)| a.as_ref() != Some(b)) {
+                        let mut c = case();
+                        c["query_only_path"] = json!(paths);
+                        c["nodes_of_query_with_path"] = json!(got.iter().map(|l| normalized_path(l)).collect::<Vec<_>>());
+                        return Err(Failure::new("query_only_path does not list the nodes in the order (and number) in which query_with_path returns them", c));
+                    }
+                }
+                Err(LibErr::Err(e)) => return Err(Failure::new(format!("query_only_path: valid query rejected: {}", e), case())),
+                Err(LibErr::Panic(p)) => return Err(Failure::new(format!("query_only_path: panic: {}", p), case())),
+            }
+        }
         if got == strict {
             continue;
         }
